@@ -893,6 +893,371 @@ theorem polls_core {W : World ω} (c0 T : Int) (x : (ω × List OsRec) × List W
   obtain ⟨r, hr, rfl⟩ := List.mem_map.mp hp
   exact hb r hr
 
+/-- the three budget frames of `Model/TlsBudget.lean` at the end of a call that started with empty logs -/
+theorem polls_of_frames {W : World ω} (T c0 : Int) (sL : LSt σ (ω × List OsRec)) (hI : LInv W c0 sL.w)
+    (h1 : T < 0 → UnlInv T [] sL) (h2 : T = 0 → ZeroInv (obsWorld W) [] c0 sL)
+    (h3 : 0 < T → LimGood (obsWorld W) (c0 + T) [] sL ∨ LimWeak (obsWorld W) (c0 + T) [] sL) : okN T sL.w.1.2 := by
+  refine polls_core c0 T sL.w hI ?_
+  intro r hr
+  refine ⟨?_, ?_, ?_⟩
+  · intro hT
+    obtain ⟨_, new, hn, ha⟩ := h1 hT
+    rw [hn, List.append_nil] at hr
+    rcases ha r hr with h | h <;> omega
+  · intro hT
+    obtain ⟨_, ⟨new, hn, ha⟩, _⟩ := h2 hT
+    rw [hn, List.append_nil] at hr
+    exact ha r hr
+  · intro hT
+    have key : LogAll (InBudget (c0 + T)) [] sL.w.2 := by
+      rcases h3 hT with h | h
+      · exact h.2.2.1
+      · exact h.2.2
+    obtain ⟨new, hn, ha⟩ := key
+    rw [hn, List.append_nil] at hr
+    obtain ⟨a, b⟩ := ha r hr
+    exact ⟨a, by omega⟩
+
+theorem lInv_start {W : World ω} (s : MSt σ ω) (hs : s.w.2 = []) : LInv W (W.now s.w.1) (withLog s ([] : List WaitRec)).w := by
+  show LInv W (W.now s.w.1) (s.w, [])
+  refine ⟨?_, ?_, ?_⟩
+  · rw [hs]; rfl
+  · rw [hs]; trivial
+  · rw [hs]; show W.now s.w.1 + 0 ≤ W.now s.w.1; omega
+
+theorem recv_polls (V : Env σ ω) (hW : VClock V.W) (hFS : V.E.FailStop) (s : MSt σ ω) (hs : s.w.2 = [])
+    (hp : s.g.pendingError = none) (n : Nat) (T : Int) :
+    okN T (receiveT V.C (obsWorld V.W) V.E s n T).2.w.2 := by
+  have hu := (receiveT_unlog V.C (obsWorld V.W) V.E (withLog s []) n T).2
+  have hw : (receiveT V.C (obsWorld V.W) V.E s n T).2.w =
+      (receiveT V.C (logWorld (obsWorld V.W)) V.E (withLog s []) n T).2.w.1 := (congrArg (fun z => z.w) hu).symm
+  rw [hw]
+  have F := frame_of_worldInv (σ := σ) (lInv_world hW (V.W.now s.w.1))
+  have hI := F.receiveT V.C V.E (withLog s []) n T (lInv_start s hs)
+  refine polls_of_frames T (V.W.now s.w.1) _ hI ?_ ?_ ?_
+  · intro hT
+    exact post_same ((unlFrame (σ := σ) (obsWorld V.W) V.E T hT []).receiveT V.C (withLog s []) n T ⟨rfl, LogAll.refl _⟩)
+  · intro hT
+    subst hT
+    exact post_same ((zeroFrame (σ := σ) (obsWorld V.W) V.E [] (V.W.now s.w.1)).receiveT V.C (withLog s []) n 0
+      ⟨rfl, LogAll.refl _, fun _ => rfl⟩)
+  · intro hT
+    have h := (limFrame (σ := σ) hW.obs V.E hFS (V.W.now s.w.1 + T) []).receiveT V.C (withLog s []) n T
+      ⟨Int.le_of_lt hT, Int.le_refl _, LogAll.refl _, hp⟩
+    rcases h with h | ⟨h, _⟩
+    · exact Or.inl h
+    · exact Or.inr h
+
+theorem send_polls (V : Env σ ω) (hW : VClock V.W) (hFS : V.E.FailStop) (s : MSt σ ω) (hs : s.w.2 = [])
+    (hp : s.g.pendingError = none) (data : Bytes) (T : Int) :
+    okN T (sendT V.C (obsWorld V.W) V.E s data T).2.w.2 := by
+  have hu := (sendT_unlog V.C (obsWorld V.W) V.E (withLog s []) data T).2
+  have hw : (sendT V.C (obsWorld V.W) V.E s data T).2.w =
+      (sendT V.C (logWorld (obsWorld V.W)) V.E (withLog s []) data T).2.w.1 := (congrArg (fun z => z.w) hu).symm
+  rw [hw]
+  have F := frame_of_worldInv (σ := σ) (lInv_world hW (V.W.now s.w.1))
+  have hI := F.sendT V.C V.E (withLog s []) data T (lInv_start s hs)
+  refine polls_of_frames T (V.W.now s.w.1) _ hI ?_ ?_ ?_
+  · intro hT
+    exact post_same ((unlFrame (σ := σ) (obsWorld V.W) V.E T hT []).sendT V.C (withLog s []) data T ⟨rfl, LogAll.refl _⟩)
+  · intro hT
+    subst hT
+    exact post_same ((zeroFrame (σ := σ) (obsWorld V.W) V.E [] (V.W.now s.w.1)).sendT V.C (withLog s []) data 0
+      ⟨rfl, LogAll.refl _, fun _ => rfl⟩)
+  · intro hT
+    have h := (limFrame (σ := σ) hW.obs V.E hFS (V.W.now s.w.1 + T) []).sendT V.C (withLog s []) data T
+      ⟨Int.le_of_lt hT, Int.le_refl _, LogAll.refl _, hp⟩
+    rcases h with h | ⟨h, _⟩
+    · exact Or.inl h
+    · exact Or.inr h
+
+/-- with a fail-stop engine no callback failure stays stashed across calls (`Props/C18.lean: no_failure_left_stashed`) -/
+theorem stash_none (V : Env σ ω) (hFS : V.E.FailStop) (s : MSt σ ω) (hp : s.g.pendingError = none) :
+    (∀ n t, (receiveT V.C (obsWorld V.W) V.E s n t).2.g.pendingError = none) ∧
+    (∀ d t, (sendT V.C (obsWorld V.W) V.E s d t).2.g.pendingError = none) := by
+  have F := noStashFrame (obsWorld V.W) V.E hFS
+  have fin : ∀ {α : Type} {o : Out α} {s' : MSt σ ω},
+      Post (fun s : MSt σ ω => s.g.pendingError = none) (fun _ => True) o s' → s'.g.pendingError = none := by
+    intro α o s' h
+    rcases h with h | ⟨_, h, _⟩ <;> exact h
+  exact ⟨fun n t => fin (F.receiveT V.C s n t hp), fun d t => fin (F.sendT V.C s d t hp)⟩
+
+/-! ### what a `Read` that hands out bytes leaves in the engine-call log -/
+
+theorem readRound_done {W : World ω} (C : Cfg) (E : Engine σ) (Q : SslAns → Bytes → σ → Prop)
+    (size : Nat) (hq : ∀ s, AllLeaves Q (E.sslRead s size)) (i : Nat) (s s' : St σ ω) (bs : Bytes)
+    (h : readRound C W E size i s = (some (.ok bs), s')) :
+    bs = [] ∨ ∃ k rest, Q (.done k) bs s'.e ∧ s'.g.engCalls = ⟨true, [], .done k, E.initFinished s'.e⟩ :: rest := by
+  have hs := interp_spec (W := W) Q _ (hq s.e) s
+  unfold readRound at h
+  rcases hi : interp W s (E.sslRead s.e size) with ⟨o, s1⟩
+  rw [hi] at h hs
+  cases o with
+  | exn e => simp at h
+  | abort m => simp at h
+  | ok p =>
+    obtain ⟨ans, out⟩ := p
+    simp only at h
+    cases ans with
+    | done k =>
+      simp only [Prod.mk.injEq, Option.some.injEq, Out.ok.injEq] at h
+      obtain ⟨h1, h2⟩ := h
+      subst h1; subst h2
+      right
+      exact ⟨k, s1.g.engCalls, hs.2.2.1 _ _ rfl, rfl⟩
+    | _ =>
+      simp only at h
+      split at h
+      · simp at h
+      · simp at h
+      · simp only [Prod.mk.injEq, Option.some.injEq, Out.ok.injEq] at h
+        left; exact h.1.symm
+      · split at h <;> simp at h
+
+theorem readLoop_done {W : World ω} (C : Cfg) (E : Engine σ) (Q : SslAns → Bytes → σ → Prop)
+    (size : Nat) (hq : ∀ s, AllLeaves Q (E.sslRead s size)) :
+    ∀ (i : Nat) (s s' : St σ ω) (bs : Bytes), readLoop C W E size i s = (.ok bs, s') →
+      bs = [] ∨ ∃ k rest, Q (.done k) bs s'.e ∧ s'.g.engCalls = ⟨true, [], .done k, E.initFinished s'.e⟩ :: rest := by
+  intro i
+  induction i with
+  | zero => intro s s' bs h; simp only [readLoop, Prod.mk.injEq, Out.ok.injEq] at h; left; exact h.1.symm
+  | succ i ih =>
+    intro s s' bs h
+    unfold readLoop at h
+    split at h
+    · rename_i o s1 heq
+      simp only [Prod.mk.injEq] at h
+      obtain ⟨rfl, rfl⟩ := h
+      exact readRound_done C E Q size hq i s _ bs heq
+    · rename_i s1 heq
+      exact ih s1 s' bs h
+
+theorem tlsRead_done {W : World ω} (C : Cfg) (E : Engine σ) (Q : SslAns → Bytes → σ → Prop)
+    (size : Nat) (hq : ∀ s, AllLeaves Q (E.sslRead s size)) (s s' : St σ ω) (bs : Bytes)
+    (h : tlsRead C W E s size = (.ok bs, s')) :
+    bs = [] ∨ ∃ k rest, Q (.done k) bs s'.e ∧ s'.g.engCalls = ⟨true, [], .done k, E.initFinished s'.e⟩ :: rest := by
+  unfold tlsRead at h
+  split at h
+  · exact readLoop_done C E Q size hq _ _ s' bs h
+  · simp only [Prod.mk.injEq, Out.ok.injEq] at h; left; exact h.1.symm
+  · simp at h
+  · simp at h
+
+theorem receiveT_done {W : World ω} (C : Cfg) (E : Engine σ) (Q : SslAns → Bytes → σ → Prop)
+    (size : Nat) (hq : ∀ s, AllLeaves Q (E.sslRead s size)) (s s' : St σ ω) (t : Int) (bs : Bytes) (hbs : bs ≠ [])
+    (h : receiveT C W E s size t = (.ok bs, s')) :
+    ∃ k rest, Q (.done k) bs s'.e ∧ s'.g.engCalls = ⟨true, [], .done k, E.initFinished s'.e⟩ :: rest := by
+  unfold receiveT at h
+  split at h
+  · split at h
+    · simp at h
+    · split at h <;> (simp only [Prod.mk.injEq, Out.ok.injEq] at h; exact absurd h.1.symm hbs)
+  · rcases tlsRead_done C E Q size hq _ s' bs h with h0 | h0
+    · exact absurd h0 hbs
+    · exact h0
+
+theorem receiveReadable_done {W : World ω} (C : Cfg) (E : Engine σ) (Q : SslAns → Bytes → σ → Prop)
+    (size : Nat) (hq : ∀ s, AllLeaves Q (E.sslRead s size)) (s s' : St σ ω) (bs : Bytes) (hbs : bs ≠ [])
+    (h : receiveReadable C W E s size = (.ok bs, s')) :
+    ∃ k rest, Q (.done k) bs s'.e ∧ s'.g.engCalls = ⟨true, [], .done k, E.initFinished s'.e⟩ :: rest := by
+  unfold receiveReadable at h
+  split at h
+  · split at h <;> (simp only [Prod.mk.injEq, Out.ok.injEq] at h; exact absurd h.1.symm hbs)
+  · rcases tlsRead_done C E Q size hq _ s' bs h with h0 | h0
+    · exact absurd h0 hbs
+    · exact h0
+
+/-! ### one synchronous call -/
+
+/-- **the engine contract (A-SSL)** the theorem needs, decidable on finite instances:
+* `read`: an `SSL_read` hands out plaintext (`done`) only once the handshake is finished, and never when the peer does
+  not speak TLS (the `plain` scenarios);
+* `failStop` (`Model/TlsBudget.lean`): after a failed BIO callback the engine makes no further BIO call and reports
+  no success, and it never writes zero bytes - needed by the limited budget (`Props/C18.lean:
+  stale_budget_after_callback_failure`, `stale_budget_after_empty_write` show what happens otherwise). -/
+structure EngOk (E : Engine σ) (plain : Bool) : Prop where
+  read : ∀ s n, AllLeaves (fun a _ s' => a.isDone = true → (E.initFinished s' = true ∧ plain = false)) (E.sslRead s n)
+  failStop : E.FailStop
+
+theorem api_step (sp : SpecSt) (who : Who) (e : EpSt) (h : sp.ep? who = some e) (isRecv : Bool) (T : Int) :
+    specStep sp (.api who (if isRecv then .recv else .send) (some T)) =
+      .ok (sp.setEp who { e with recvOp := isRecv, callT := some T, spent := 0 }) := by
+  cases isRecv <;> simp [specStep, onEp, h] <;> rfl
+
+theorem specRun_cons_ok {s s' : SpecSt} {o : Obs} (h : specStep s o = .ok s') (rest : List Obs) :
+    specRun s (o :: rest) = specRun s' rest := by
+  simp only [specRun, h]
+
+theorem ok_recv (V : Env σ ω) (hW : VClock V.W) {plain : Bool} (hE : EngOk V.E plain) (who : Who) (ep : Ep σ ω) (T : Int)
+    (sp : SpecSt) (e : EpSt) (tail : List Obs) (hsp : sp.ep? who = some e) (hpl : sp.plain = plain)
+    (hst : ep.st.g.pendingError = none)
+    (hna : ∀ m, (receiveT V.C (obsWorld V.W) V.E (fresh ep.st) ep.rsz T).1 ≠ .abort m) :
+    ∃ e', specRun sp ((epRecv V who ep T).2 ++ tail) = specRun (sp.setEp who e') tail ∧
+      e'.async = e.async ∧ e'.discSeen = e.discSeen ∧ e'.callT = none ∧
+      (epRecv V who ep T).1.st.g.pendingError = none := by
+  have hpoll := recv_polls V hW hE.failStop (fresh ep.st) rfl hst ep.rsz T
+  have hstash := (stash_none V hE.failStop (fresh ep.st) hst).1 ep.rsz T
+  have hdone := fun bs s' hbs h => receiveT_done (W := obsWorld V.W) V.C V.E _ ep.rsz (fun s => hE.read s ep.rsz) (fresh ep.st) s' T bs hbs h
+  simp only [epRecv]
+  generalize receiveT V.C (obsWorld V.W) V.E (fresh ep.st) ep.rsz T = r at hpoll hstash hna hdone
+  let e1 : EpSt := { e with recvOp := true, callT := some T, spent := 0 }
+  have h1 : specStep sp (.api who .recv (some T)) = .ok (sp.setEp who e1) := api_step sp who e hsp true T
+  obtain ⟨x, hx⟩ := run_os who T r.2.w.2.reverse (sp.setEp who e1) e1
+    (r.2.g.engCalls.reverse.map (callObs who) ++ ([recvRet who r.1] ++ tail)) (ep?_setEp hsp) rfl (okO_of_okN T _ hpoll)
+  let e2 : EpSt := { e1 with spent := x }
+  have hc := run_calls who r.2.g.engCalls.reverse ((sp.setEp who e1).setEp who e2) e2 ([recvRet who r.1] ++ tail)
+    (ep?_setEp (ep?_setEp hsp))
+  let e3 : EpSt := { e2 with lastDoneInit := lastDI e2.lastDoneInit r.2.g.engCalls.reverse }
+  have hrun : specRun sp (.api who .recv (some T) :: (evObs who r.2 ++ [recvRet who r.1]) ++ tail) =
+      specRun (sp.setEp who e3) ([recvRet who r.1] ++ tail) := by
+    rw [List.cons_append, specRun_cons_ok h1]
+    rw [show (evObs who r.2 ++ [recvRet who r.1]) ++ tail = r.2.w.2.reverse.map (osObs who) ++
+      (r.2.g.engCalls.reverse.map (callObs who) ++ ([recvRet who r.1] ++ tail)) by simp only [evObs, List.append_assoc]]
+    rw [hx, hc, setEp_setEp, setEp_setEp]
+  rw [hrun]
+  have he3 : (sp.setEp who e3).ep? who = some e3 := ep?_setEp hsp
+  have hret : ∀ (e4 : EpSt) (rr : Ret), recvRet who r.1 = .ret who rr → retClause who plain e3 rr = .ok e4 →
+      specRun (sp.setEp who e3) ([recvRet who r.1] ++ tail) = specRun (sp.setEp who e4) tail := by
+    intro e4 rr hxr h4
+    have hstep : specStep (sp.setEp who e3) (.ret who rr) = .ok (sp.setEp who e4) := by
+      simp only [specStep]
+      rw [onEp_some he3, plain_setEp, hpl, h4]
+      simp only [setEp_setEp]
+    rw [hxr]
+    exact specRun_cons_ok hstep tail
+  rcases r with ⟨o, s'⟩
+  cases o with
+  | abort m => exact absurd rfl (hna m)
+  | exn ex =>
+    exact ⟨{ e3 with threw := true, callT := none }, hret _ .threw rfl rfl, rfl, rfl, rfl, hstash⟩
+  | ok bs =>
+    cases bs with
+    | nil => exact ⟨{ e3 with callT := none }, hret _ .other rfl rfl, rfl, rfl, rfl, hstash⟩
+    | cons b bs =>
+      obtain ⟨k, rest, hQ, hcalls⟩ := hdone (b :: bs) s' (by simp) rfl
+      obtain ⟨hq, hp⟩ := hQ rfl
+      have hl : lastDI e.lastDoneInit (s'.g.engCalls.reverse) = true := by
+        rw [hcalls, List.reverse_cons, lastDI_snoc]
+        simp [SslAns.isDone, hq]
+      refine ⟨{ e3 with callT := none }, hret _ (.n (b :: bs).length) rfl ?_, rfl, rfl, rfl, hstash⟩
+      subst hp
+      simp only [retClause]
+      simp [e3, e2, e1, hl]
+
+theorem ok_send (V : Env σ ω) (hW : VClock V.W) {plain : Bool} (hE : EngOk V.E plain) (who : Who) (ep : Ep σ ω)
+    (data : Bytes) (T : Int) (sp : SpecSt) (e : EpSt) (tail : List Obs) (hsp : sp.ep? who = some e)
+    (hst : ep.st.g.pendingError = none)
+    (hna : ∀ m, (sendT V.C (obsWorld V.W) V.E (fresh ep.st) data T).1 ≠ .abort m) :
+    ∃ e', specRun sp ((epSend V who ep data T).2 ++ tail) = specRun (sp.setEp who e') tail ∧
+      e'.async = e.async ∧ e'.discSeen = e.discSeen ∧ e'.callT = none ∧
+      (epSend V who ep data T).1.st.g.pendingError = none := by
+  have hpoll := send_polls V hW hE.failStop (fresh ep.st) rfl hst data T
+  have hstash := (stash_none V hE.failStop (fresh ep.st) hst).2 data T
+  simp only [epSend]
+  generalize sendT V.C (obsWorld V.W) V.E (fresh ep.st) data T = r at hpoll hstash hna
+  let e1 : EpSt := { e with recvOp := false, callT := some T, spent := 0 }
+  have h1 : specStep sp (.api who .send (some T)) = .ok (sp.setEp who e1) := api_step sp who e hsp false T
+  obtain ⟨x, hx⟩ := run_os who T r.2.w.2.reverse (sp.setEp who e1) e1
+    (r.2.g.engCalls.reverse.map (callObs who) ++ ([sendRet who r.1] ++ tail)) (ep?_setEp hsp) rfl (okO_of_okN T _ hpoll)
+  let e2 : EpSt := { e1 with spent := x }
+  have hc := run_calls who r.2.g.engCalls.reverse ((sp.setEp who e1).setEp who e2) e2 ([sendRet who r.1] ++ tail)
+    (ep?_setEp (ep?_setEp hsp))
+  let e3 : EpSt := { e2 with lastDoneInit := lastDI e2.lastDoneInit r.2.g.engCalls.reverse }
+  have hrun : specRun sp (.api who .send (some T) :: (evObs who r.2 ++ [sendRet who r.1]) ++ tail) =
+      specRun (sp.setEp who e3) ([sendRet who r.1] ++ tail) := by
+    rw [List.cons_append, specRun_cons_ok h1]
+    rw [show (evObs who r.2 ++ [sendRet who r.1]) ++ tail = r.2.w.2.reverse.map (osObs who) ++
+      (r.2.g.engCalls.reverse.map (callObs who) ++ ([sendRet who r.1] ++ tail)) by simp only [evObs, List.append_assoc]]
+    rw [hx, hc, setEp_setEp, setEp_setEp]
+  rw [hrun]
+  have he3 : (sp.setEp who e3).ep? who = some e3 := ep?_setEp hsp
+  have hret : ∀ (e4 : EpSt) (rr : Ret), sendRet who r.1 = .ret who rr → retClause who sp.plain e3 rr = .ok e4 →
+      specRun (sp.setEp who e3) ([sendRet who r.1] ++ tail) = specRun (sp.setEp who e4) tail := by
+    intro e4 rr hxr h4
+    have hstep : specStep (sp.setEp who e3) (.ret who rr) = .ok (sp.setEp who e4) := by
+      simp only [specStep]
+      rw [onEp_some he3, plain_setEp, h4]
+      simp only [setEp_setEp]
+    rw [hxr]
+    exact specRun_cons_ok hstep tail
+  rcases r with ⟨o, s'⟩
+  cases o with
+  | abort m => exact absurd rfl (hna m)
+  | exn ex => exact ⟨{ e3 with threw := true, callT := none }, hret _ .threw rfl rfl, rfl, rfl, rfl, hstash⟩
+  | ok n =>
+    refine ⟨{ e3 with callT := none }, hret _ (.n n) rfl ?_, rfl, rfl, rfl, hstash⟩
+    simp [retClause, e3, e2, e1]
+
+/-! ### one step of the driver on an asynchronous endpoint -/
+
+theorem driverQuery_keeps (E : Engine σ) (s : St σ ω) (po : Bool) :
+    (driverQuery E s po).2.g.engCalls = s.g.engCalls ∧ (driverQuery E s po).2.w = s.w := by
+  unfold driverQuery
+  split
+  · split
+    · exact ⟨rfl, rfl⟩
+    · split <;> exact ⟨rfl, rfl⟩
+  · split <;> exact ⟨rfl, rfl⟩
+
+theorem aQuery_fields (E : Engine σ) (x : ASt σ ω) :
+    (aQuery E x).a.delivered = x.a.delivered ∧ (aQuery E x).a.disconnects = x.a.disconnects ∧
+    (aQuery E x).a.registered = x.a.registered ∧ (aQuery E x).s.g.engCalls = x.s.g.engCalls ∧ (aQuery E x).s.w = x.s.w := by
+  unfold aQuery
+  split
+  · exact ⟨rfl, rfl, rfl, rfl, rfl⟩
+  · have hk := driverQuery_keeps E x.s x.a.pollOut
+    rcases hq : driverQuery E x.s x.a.pollOut with ⟨po, s'⟩
+    rw [hq] at hk
+    exact ⟨rfl, rfl, rfl, hk.1, hk.2⟩
+
+/-- what a task does to the ghost lists the observations are read from: at most one buffer is delivered - a non-empty
+one, after an engine answer `done` with the handshake finished and a TLS peer -, at most one disconnect, and only
+of a registered socket, which it unregisters -/
+theorem aTask_facts {W : World ω} (C : Cfg) (E : Engine σ) {plain : Bool} (hE : EngOk E plain) (rsz : Nat)
+    (x : ASt σ ω) (rev : REvents) :
+    let r := aTask C W E rsz x rev
+    (r.2.a.delivered = x.a.delivered ∨
+      ∃ bs k rest, bs ≠ [] ∧ r.2.a.delivered = bs :: x.a.delivered ∧ plain = false ∧
+        r.2.s.g.engCalls = ⟨true, [], .done k, true⟩ :: rest) ∧
+    ((r.2.a.disconnects = x.a.disconnects ∧ (r.2.a.registered = true → x.a.registered = true)) ∨
+      (x.a.registered = true ∧ r.2.a.disconnects = x.a.disconnects + 1 ∧ r.2.a.registered = false ∧
+        r.2.a.delivered = x.a.delivered)) := by
+  intro r
+  show (_ ∨ _) ∧ (_ ∨ _)
+  simp only [r]
+  unfold aTask
+  by_cases hreg : x.a.registered = true
+  · rw [if_neg (by simp [hreg])]
+    split
+    · -- readable
+      unfold aReadable
+      split
+      · exact ⟨Or.inl rfl, Or.inl ⟨rfl, fun h => h⟩⟩
+      · rename_i bs s' hne heq
+        have hbs : bs ≠ [] := hne
+        obtain ⟨k, rest, hQ, hcalls⟩ := receiveReadable_done C E _ rsz (fun s => hE.read s rsz) x.s s' bs hbs heq
+        obtain ⟨hq, hp⟩ := hQ rfl
+        refine ⟨Or.inr ⟨bs, k, rest, hbs, rfl, hp, ?_⟩, Or.inl ⟨rfl, fun h => h⟩⟩
+        rw [hcalls, hq]
+      · split
+        · exact ⟨Or.inl rfl, Or.inr ⟨hreg, rfl, rfl, rfl⟩⟩
+        · exact ⟨Or.inl rfl, Or.inl ⟨rfl, fun h => h⟩⟩
+      · exact ⟨Or.inl rfl, Or.inl ⟨rfl, fun h => h⟩⟩
+    · split
+      · -- writable
+        unfold aWritable
+        split
+        · split <;> exact ⟨Or.inl rfl, Or.inl ⟨rfl, fun h => h⟩⟩
+        · split
+          · split <;> exact ⟨Or.inl rfl, Or.inl ⟨rfl, fun h => h⟩⟩
+          · split <;> exact ⟨Or.inl rfl, Or.inl ⟨rfl, fun h => h⟩⟩
+          · exact ⟨Or.inl rfl, Or.inl ⟨rfl, fun h => h⟩⟩
+      · split
+        · exact ⟨Or.inl rfl, Or.inr ⟨hreg, rfl, rfl, rfl⟩⟩
+        · exact ⟨Or.inl rfl, Or.inl ⟨rfl, fun h => h⟩⟩
+  · rw [if_pos (by simp [hreg])]
+    exact ⟨Or.inl rfl, Or.inl ⟨rfl, fun h => h⟩⟩
+
 end Proof
 
 end SockModel.Tls.Spec
